@@ -72,6 +72,10 @@ def stepOp (rw : Rune → Int) (v : SimVariant) (enc : Encoder) (s : Sim) (op : 
   | ["G"] => (s, some ("g:" ++ dump s))
   | ["P"] => let (s', e) := drain s; (s', some ("p:" ++ e))
   | ["T"] => (s, some s!"t:{s.back.w},{s.back.h}")
+  -- burst bracket (harness/engines/sim.go): the injections between A and E are made back to back while nobody polls;
+  -- the model's event queue is unbounded and injection never fails, so the bracket changes nothing here
+  | ["A"] => (s, none)
+  | ["E"] => (s, none)
   | _ => (s, some "bad-op")
 
 def run (env : Env) (rest : String) : String :=
